@@ -422,6 +422,41 @@ def _c20(tier):
 CHECKS["C20"] = _c20
 
 
+def _c17(tier):
+    from . import unicode_ref
+    t0 = time.time()
+    res = Results("C17")
+    # fold: iswfc vs towfc_s / wcsfc_s for every value, plain (fence) and ASan (table indexing)
+    jobs = []
+    for cfg in ("plain", "asan"):
+        li = build.build_lib(cfg); exe = build.build_harness(li, "uni", ["uni.c"])
+        jobs.append(("uni/fold/" + cfg, [exe, "--prop", "C17", "--tier", tier, "--seed", str(seed()), "--cfg", cfg, "--mode", "fold"]))
+    run_workers(jobs, res, env=dict(os.environ, ASAN_OPTIONS="detect_leaks=0:abort_on_error=1"))
+    # norm: differential against Python unicodedata through a pipe
+    li = build.build_lib("plain"); exe = build.build_harness(li, "uni", ["uni.c"])
+    viol, counters, samples = unicode_ref.check(exe, tier, seed(), nworkers=NCPU)
+    for k, v in viol.items():
+        res.viol[k] = v
+    res.count("norm_inputs", counters["norm_cases"]); res.count("norm_driver_calls", counters["driver_calls"])
+    for cls, n in counters["classes"].items():
+        res.distinct.add("norm|" + cls); res.count("norm_class_" + cls, n)
+    res.samples = samples
+    res.evaluations = counters["driver_calls"] + res.counters.get("fold_cases", 0)
+    return finish(res, tier, "exploration",
+                  "normalisation: every code point assigned in Python's UCD %s alone (quick: BMP + every third supplementary) and followed by U+0301, every Hangul LxV and LVxT jamo sequence and "
+                  "precomposed syllable, every canonical two-part decomposition (starter, mark) and with an extra mark, seeded random strings of <= 12 starters with 0-18 reordered combining "
+                  "marks of differing classes, each in NFD and NFC with dmax = result+1 and ample, result compared with unicodedata.normalize and re-normalised (idempotence); folding: iswfc "
+                  "vs characters emitted by towfc_s / wcsfc_s for every value 0..0x1103FF and 4096 larger 32-bit values, dest sized from the announcement, plain (fence) and ASan builds" % unicode_ref.UCD, t0,
+                  extra_cov=dict(builds=["plain", "asan"], harnesses=["uni"], python_ucd=unicode_ref.UCD, exhaustive=(tier == "thorough"),
+                                 exhaustive_scope="single code points of UCD %s and all fold inputs" % unicode_ref.UCD),
+                  assumptions=["reference = CPython unicodedata (UCD %s); the library's tables are Unicode 15: code points first assigned after %s are only covered by the fold / idempotence "
+                               "checks (normalisation stability makes the comparison sound for the older ones)" % (unicode_ref.UCD, unicode_ref.UCD),
+                               "NFKD/NFKC are not built (--enable-norm-compat off)"], min_evals=10000)
+
+
+CHECKS["C17"] = _c17
+
+
 def _c16(tier):
     t0 = time.time()
     res = Results("C16")
